@@ -115,11 +115,7 @@ func parseSelect(
 			if !ok {
 				continue // value is nil
 			}
-			docIDs := make([]string, len(v))
-			for i, value := range v {
-				docIDs[i] = value.(string)
-			}
-			slct.DocIDs = immutable.Some(docIDs)
+			slct.DocIDs = immutable.Some(nonNullStrings(v))
 
 		case request.Cid: // parse single CID query field
 			if v, ok := value.(string); ok {
